@@ -71,7 +71,7 @@ func (e *Engine) rootAssigns() (rs []assignedRange, os []assignedObj, maps []Val
 				panic(unsupported("assigns %q: %v", a, err))
 			}
 			maps = append(maps, e.evalSpec(ex, se))
-		case strings.HasPrefix(a, "ghost("):
+		case strings.HasPrefix(a, "ghost("), strings.HasPrefix(a, "log("):
 		default:
 			panic(unsupported("assigns clause %q", a))
 		}
